@@ -58,18 +58,26 @@ class State:
     #: element ranges are per-state (arrays themselves are shared objects)
     ranges: dict[int, tuple] = field(default_factory=dict)
     dead: bool = False
+    #: pending disequalities d != 0
+    ne: list[Lin] = field(default_factory=list)
 
     def copy(self) -> "State":
         return State(dict(self.vals), list(self.facts), dict(self.ranges),
-                     self.dead)
+                     self.dead, list(self.ne))
 
     def add(self, e: Lin) -> None:
         if e.is_const():
             if e.c < 0:
                 self.dead = True
             return
-        if e not in self.facts:
-            self.facts.append(e)
+        from sa.lin import _normalise
+        e = _normalise(e)
+        for i, f in enumerate(self.facts):
+            if f.co == e.co:
+                if e.c < f.c:
+                    self.facts[i] = e      # tighter bound replaces weaker
+                return
+        self.facts.append(e)
 
     def rng(self, a: Arr) -> tuple:
         return self.ranges.get(id(a), a.clone_range())
@@ -124,6 +132,11 @@ def relevant_names(repo: Repo, fi: FuncInfo, index_arrays: set[str],
             rel |= names(n.iter) if isinstance(n.iter, ast.Call) and \
                 isinstance(n.iter.func, ast.Name) and \
                 n.iter.func.id == "range" else set()
+        if isinstance(n, ast.Call) and isinstance(
+                n.func, ast.Attribute) and n.func.attr in (
+                "empty", "zeros", "ones", "full", "reshape"):
+            for a in n.args:
+                rel |= names(a)
         if isinstance(n, ast.Call) and isinstance(n.func, ast.Name):
             if n.func.id in ("range",):
                 for a in n.args:
@@ -159,8 +172,6 @@ def relevant_names(repo: Repo, fi: FuncInfo, index_arrays: set[str],
             tn = {x.id for x in ast.walk(n.target)
                   if isinstance(x, ast.Name)}
             assigns.append((tn, n.iter))
-        if isinstance(n, ast.Return) and n.value is not None:
-            rel |= names(n.value)
     changed = True
     while changed:
         changed = False
@@ -195,10 +206,28 @@ class Analyzer:
         self.loop_syms: list[str] = []
         self.shape_syms: list[str] = []
         self._rel_memo: dict = {}
+        #: subscripts reached by the (non-quiet) analysis under consistent
+        #: facts
+        self.visited: set[tuple[str, int, int]] = set()
         idx_arrays = {p for p, sp in contract.arrays.items()
                       if sp.get("scratch") or sp.get("store_cols")}
         self._idx_arrays = idx_arrays
         self._entail_cache: dict = {}
+
+    def _dim_syms(self) -> list[str]:
+        """Shape symbols that are array extents (not scalar parameters)."""
+        out: list[str] = []
+        for spec in self.contract.arrays.values():
+            for d in spec["dims"]:
+                nm = d if isinstance(d, str) else (
+                    d[0] if isinstance(d, tuple) else None)
+                if nm is not None and nm not in out:
+                    out.append(nm)
+        for p_, (lo, hi) in self.contract.ints.items():
+            if getattr(self.contract, "index_ints", None) and \
+                    p_ in self.contract.index_ints and p_ not in out:
+                out.append(p_)
+        return out
 
     def _all_index_arrays(self) -> set[str]:
         # parameter names (in any inlined function) bound to index-feeding
@@ -230,6 +259,11 @@ class Analyzer:
                         dims.append(d)
                     elif isinstance(d, int):
                         dims.append(Lin.const(d))
+                    elif isinstance(d, tuple):
+                        if d[0] not in syms:
+                            syms[d[0]] = Lin.sym(d[0])
+                            self.shape_syms.append(d[0])
+                        dims.append(syms[d[0]] + d[1])
                     else:
                         if d not in syms:
                             syms[d] = Lin.sym(d)
@@ -468,13 +502,17 @@ class Analyzer:
     # ---------------------------------------------------------- subscripts
     def _index_ok(self, st: State, node: ast.AST, idx: Lin, dim: Lin,
                   what: str) -> None:
-        if not self.quiet:
-            self.n_index_positions += 1
+        if self.quiet:
+            return        # invariant inference: obligations are not judged
+        self.n_index_positions += 1
         lo_ok = entails(st.facts, idx + dim)     # idx >= -dim (N3)
         hi_ok = entails(st.facts, dim - 1 - idx)
         if not hi_ok:
             hi_ok = self._tri_upper(st, idx, dim)
         ok = lo_ok and hi_ok
+        wit = None
+        if not ok and not self.quiet:
+            wit = self._small_model(st, idx, dim)
         detail = f"index {idx} into {what} of extent {dim}: "
         if ok:
             detail += "proved -extent <= index <= extent-1"
@@ -485,7 +523,79 @@ class Analyzer:
                        + "facts: " + "; ".join(
                            f"{f} >= 0" for f in st.facts
                            if f.syms() & (idx.syms() | dim.syms()))[:600])
+            if wit is not None:
+                detail += ("; REFUTED by the integer model " + ", ".join(
+                    f"{k}={v}" for k, v in sorted(wit.items()))
+                    + " (satisfies every fact, index out of range)")
         self.ob(node, f"{what}[{idx}]", ok, detail)
+
+    def _small_model(self, st: State, idx: Lin, dim: Lin) \
+            -> dict[str, int] | None:
+        """Search a small integer model of the facts in which the index is
+        out of range (index arithmetic only - no repository code runs)."""
+        from sa.lin import cone
+        goal = idx - dim
+        facts = cone(st.facts, goal)
+        tris = getattr(self, "_tris", {})
+        prods = getattr(self, "_products", {})
+        syms: set[str] = set(goal.syms())
+        for f in facts:
+            syms |= f.syms()
+        derived: dict[str, Any] = {}
+        for s_ in list(syms):
+            if s_ in tris:
+                derived[s_] = ("tri", tris[s_])
+                syms |= tris[s_].syms()
+            elif s_ in prods:
+                derived[s_] = ("mul", prods[s_])
+                syms |= prods[s_][0].syms() | prods[s_][1].syms()
+            elif s_.startswith("tri(") and s_.endswith(")"):
+                derived[s_] = ("tri", Lin.sym(s_[4:-1]))
+                syms.add(s_[4:-1])
+        free = sorted(s_ for s_ in syms if s_ not in derived)
+        if len(free) > 6:
+            return None
+
+        def val(e: Lin, m: dict[str, int]) -> Fraction | None:
+            t = e.c
+            for k_, c_ in e.co.items():
+                if k_ not in m:
+                    return None
+                t += c_ * m[k_]
+            return t
+        rng = range(-2, 6)
+        for combo in itertools.product(rng, repeat=len(free)):
+            m = dict(zip(free, combo))
+            okm = True
+            for _ in range(3):
+                for s_, d in derived.items():
+                    if s_ in m:
+                        continue
+                    if d[0] == "tri":
+                        x = val(d[1], m)
+                        if x is not None and x.denominator == 1:
+                            m[s_] = int(x) * (int(x) - 1) // 2
+                    else:
+                        a, b = val(d[1][0], m), val(d[1][1], m)
+                        if a is not None and b is not None:
+                            m[s_] = int(a * b)
+            if any(s_ not in m for s_ in derived):
+                continue
+            for f in facts:
+                v = val(f, m)
+                if v is None or v < 0:
+                    okm = False
+                    break
+            if not okm:
+                continue
+            iv, dv = val(idx, m), val(dim, m)
+            if iv is None or dv is None or dv < 0:
+                continue
+            if iv > dv - 1 or iv < -dv:
+                return {k_.split("@")[0] + ("@" + k_.split("@")[1]
+                                            if "@" in k_ else ""): v_
+                        for k_, v_ in m.items()}
+        return None
 
     def _tri_upper(self, st: State, idx: Lin, dim: Lin) -> bool:
         """idx = tri(a) + r, dim = tri(N):  a+1 <= N, r <= a-1 => in range."""
@@ -504,6 +614,8 @@ class Analyzer:
 
     def subscript(self, st: State, e: ast.Subscript, store: bool,
                   value: Any = None) -> Any:
+        if not self.quiet:
+            self.visited.add((self.cur.qualname, e.lineno, e.col_offset))
         base = self.ev(st, e.value)
         sl = e.slice
         parts = list(sl.elts) if isinstance(sl, ast.Tuple) else [sl]
@@ -741,6 +853,10 @@ class Analyzer:
             for a in e.args:
                 self.ev(st, a)
             return UNK
+        if isinstance(f, ast.Attribute) and isinstance(
+                f.value, ast.Name) and f.value.id in ("np", "numpy") and \
+                f.value.id not in st.vals:
+            return self._numpy(st, e, f.attr)
         if isinstance(f, ast.Attribute):
             base = self.ev(st, f.value)
             if f.attr in ("max", "min") and not e.args:
@@ -877,6 +993,9 @@ class Analyzer:
         if vals and all(isinstance(v, Lin) for v in vals) and all(
                 v == vals[0] for v in vals):
             return vals[0]
+        if vals and all(isinstance(v, (Arr, View)) for v in vals) and all(
+                v is vals[0] for v in vals):
+            return vals[0]
         return UNK
 
     # ---------------------------------------------------------- conditions
@@ -940,10 +1059,16 @@ class Analyzer:
             elif entails(st.facts, -d):
                 st.add(-d - 1)
             else:
-                ne = getattr(st, "_ne", None)
-                if ne is None:
-                    st._ne = ne = []      # type: ignore[attr-defined]
-                ne.append(d)
+                st.ne.append(d)
+        # pending disequalities may now be decided on one side
+        if k != "ne" and st.ne:
+            for dd in list(st.ne):
+                if entails(st.facts, dd):
+                    st.add(dd - 1)
+                    st.ne.remove(dd)
+                elif entails(st.facts, -dd):
+                    st.add(-dd - 1)
+                    st.ne.remove(dd)
         # abs-range refinement: once the sign of a signed id is known
         for v in (a, b):
             info = getattr(self, "_abs", {})
@@ -960,8 +1085,7 @@ class Analyzer:
                             st.add(-x - alo)
 
     def _nonzero(self, st: State, x: Lin) -> bool:
-        ne = getattr(st, "_ne", [])
-        return any(d == x or d == -x for d in ne)
+        return any(d == x or d == -x for d in st.ne)
 
     # ---------------------------------------------------------- statements
     def block(self, states: list[State], stmts: list[ast.stmt]) \
@@ -983,9 +1107,7 @@ class Analyzer:
             for o in out:
                 if o.vals == s.vals and o.ranges == s.ranges:
                     o.facts = [f for f in o.facts if f in s.facts]
-                    ne_o = getattr(o, "_ne", [])
-                    ne_s = getattr(s, "_ne", [])
-                    o._ne = [d for d in ne_o if d in ne_s]  # type: ignore
+                    o.ne = [d for d in o.ne if d in s.ne]
                     break
             else:
                 out.append(s)
@@ -995,6 +1117,14 @@ class Analyzer:
         if isinstance(s, (ast.Assign, ast.AnnAssign)):
             if getattr(s, "value", None) is None:
                 return states
+            if isinstance(s.value, ast.IfExp):
+                tg = s.targets if isinstance(s, ast.Assign) else [s.target]
+                mk = lambda v: ast.copy_location(  # noqa: E731
+                    ast.Assign(targets=tg, value=v), s)
+                split = ast.copy_location(ast.If(
+                    test=s.value.test, body=[mk(s.value.body)],
+                    orelse=[mk(s.value.orelse)]), s)
+                return self.stmt(states, split)
             for st in states:
                 self._assign(st, s)
             return states
@@ -1015,17 +1145,21 @@ class Analyzer:
                 self.ev(st, s.test)
                 t = self.assume(st.copy(), s.test, True)
                 f = self.assume(st.copy(), s.test, False)
-                if hasattr(st, "_ne"):
-                    t._ne = list(st._ne) + list(        # type: ignore
-                        getattr(t, "_ne", []))
-                    f._ne = list(st._ne) + list(        # type: ignore
-                        getattr(f, "_ne", []))
                 if self.infeasible is not None:
                     if self.infeasible(self, s, t):
                         t.dead = True
                 for br, body in ((t, s.body), (f, s.orelse)):
-                    if br.dead or not consistent(br.facts):
+                    if br.dead:
                         continue
+                    new = [x for x in br.facts if x not in st.facts]
+                    if new:
+                        from sa.lin import cone as _cone
+                        probe = Lin()
+                        for x in new:
+                            probe = probe + Lin(
+                                {k_: 1 for k_ in x.co})
+                        if not consistent(_cone(br.facts, probe)):
+                            continue
                     out += self.block([br], body)
             return out
         if isinstance(s, ast.For):
@@ -1164,14 +1298,18 @@ class Analyzer:
         else:
             lo, hi, info = sp
         entry = [st]
-        if self.peel and lo is not None and hi is not None:
+        if self.peel and lo is not None and hi is not None and \
+                not self.loop_syms and not self.call_stack:
             # peel the first iteration: analyse the body with k = lo
             pst = st.copy()
             if entails(pst.facts, hi - lo - 1) or True:
                 first = pst.copy()
                 first.add(hi - lo - 1)
                 if consistent(first.facts):
-                    ends = self._body_once(first, s, lo, hi, info,
+                    # the peeled iteration gets its own index symbol
+                    sp0 = self._iter_space(first, s)
+                    info0 = sp0[2] if sp0 is not None else info
+                    ends = self._body_once(first, s, lo, hi, info0,
                                            k_value=lo)
                     entry = []
                     for e_ in ends[0] + ends[2]:
@@ -1212,6 +1350,10 @@ class Analyzer:
                 b.vals[nm] = self._load(b, v[1])
             else:
                 b.vals[nm] = v
+        from sa.lin import cone as _cone
+        if lo is not None and not consistent(_cone(b.facts, k)):
+            # the loop body cannot be entered from this state
+            return [], [], []
         self._breaks.append([])
         self._continues.append([])
         self.loop_syms.append(info["ksym"])
@@ -1232,7 +1374,17 @@ class Analyzer:
         k = info["k"]
         arrays = [a for a in set(
             v for v in st.vals.values() if isinstance(v, Arr))]
-        inv = self._houdini(st, s, lo, hi, info, carried, arrays)
+        ranged = [a for a in arrays if st.rng(a)[0] is not None
+                  or st.rng(a)[1] is not None]
+        if not carried and not ranged:
+            inv = {"sym": {}, "facts": [], "ranges": {}}
+        elif self.quiet:
+            # inside the invariant inference of an enclosing loop: havoc
+            # (sound, merely less precise)
+            inv = self._houdini(st, s, lo, hi, info, carried, arrays,
+                                scalars=False)
+        else:
+            inv = self._houdini(st, s, lo, hi, info, carried, arrays)
         # final analysis of the body with the surviving invariants,
         # recording obligations
         head = self._head_state(st, carried, arrays, inv, k, lo, hi,
@@ -1244,6 +1396,16 @@ class Analyzer:
         res = [after] + brk
         del ends, cont
         return res
+
+    def _havoc(self, st: State, carried: list[str], arrays: list[Arr],
+               body: list[ast.stmt], test: ast.expr | None = None) \
+            -> dict[str, Any]:
+        written = self._arrays_written(st, body)
+        if test is not None:
+            written |= self._arrays_written_expr(st, test)
+        return {"sym": {c: self.fresh(c) for c in carried}, "facts": [],
+                "ranges": {id(a): (None, None, None, None)
+                           for a in arrays if a in written}}
 
     def _head_state(self, st: State, carried: list[str], arrays: list[Arr],
                     inv: dict[str, Any], k: Lin, lo: Any, hi: Any,
@@ -1264,14 +1426,14 @@ class Analyzer:
 
     def _houdini(self, st: State, s: ast.For | ast.While, lo: Any, hi: Any,
                  info: dict[str, Any], carried: list[str],
-                 arrays: list[Arr]) -> dict[str, Any]:
+                 arrays: list[Arr], scalars: bool = True) -> dict[str, Any]:
         k = info["k"]
         sym = {c: self.fresh(c) for c in carried}
         init = {c: st.vals[c] for c in carried}
         # ---- candidate scalar invariants: list of (Lin over sym/k) >= 0
         cands: list[Lin] = []
         bases = [ZERO, ONE, -ONE]
-        for sname in self.shape_syms:
+        for sname in self._dim_syms():
             bases += [Lin.sym(sname), Lin.sym(sname) - 1]
         for ls in self.loop_syms:
             bases += [Lin.sym(ls), Lin.sym(ls) - 1, Lin.sym(ls) + 1]
@@ -1292,6 +1454,8 @@ class Analyzer:
         m_entry = {next(iter(sym[c].co)): init[c] for c in carried}
         if lo is not None:
             m_entry[info["ksym"]] = lo
+        if not scalars:
+            cands = []
         cands = [c for c in dict.fromkeys(cands)
                  if entails(st.facts, c.subst(m_entry))]
         # ---- candidate element ranges for arrays written in the loop
@@ -1448,7 +1612,16 @@ class Analyzer:
             info = {"k": self.fresh("w"), "binds": {}}
             info["ksym"] = next(iter(info["k"].co))
             wrapper = _WhileBody(s)
-            inv = self._houdini_while(st, s, wrapper, info, carried, arrays)
+            ranged = [a for a in arrays if st.rng(a)[0] is not None
+                      or st.rng(a)[1] is not None]
+            if not carried and not ranged:
+                inv = {"sym": {}, "facts": [], "ranges": {}}
+            elif self.quiet:
+                inv = self._houdini_while(st, s, wrapper, info, carried,
+                                          arrays, scalars=False)
+            else:
+                inv = self._houdini_while(st, s, wrapper, info, carried,
+                                          arrays)
             head = self._head_state(st, carried, arrays, inv, info["k"],
                                     None, None, at_entry=False)
             # evaluate the test at the head (records obligations of calls)
@@ -1475,12 +1648,13 @@ class Analyzer:
 
     def _houdini_while(self, st: State, s: ast.While, wrapper: Any,
                        info: dict[str, Any], carried: list[str],
-                       arrays: list[Arr]) -> dict[str, Any]:
+                       arrays: list[Arr], scalars: bool = True) \
+            -> dict[str, Any]:
         del wrapper
         sym = {c: self.fresh(c) for c in carried}
         init = {c: st.vals[c] for c in carried}
         bases = [ZERO, ONE, -ONE]
-        for sname in self.shape_syms:
+        for sname in self._dim_syms():
             bases += [Lin.sym(sname), Lin.sym(sname) - 1]
         for ls in self.loop_syms:
             bases += [Lin.sym(ls), Lin.sym(ls) - 1, Lin.sym(ls) + 1]
@@ -1493,6 +1667,8 @@ class Analyzer:
                 if c2 != c:
                     cands += [x - sym[c2], sym[c2] - x]
         m_entry = {next(iter(sym[c].co)): init[c] for c in carried}
+        if not scalars:
+            cands = []
         cands = [c for c in dict.fromkeys(cands)
                  if entails(st.facts, c.subst(m_entry))]
         written = self._arrays_written(st, s.body) | \
